@@ -49,8 +49,21 @@ if cfg.get('break') == 'bad_layer_type':
     lt = tuple(['plasma'] + list(lt[1:]))
 if cfg.get('break') == 'bad_method':
     kw['integration_method'] = 'euler'
+call_arrays = {'radius': radius, 'density': density, 'gravity': grav, 'bulk': bulk, 'shear': cshear}
+if cfg.get('truncate'):
+    # a mismatching array length must be rejected before the C level is reached (the guard elements behind the view keep the process alive if it is not)
+    nm_ = cfg['truncate']
+    buf_ = np.concatenate([call_arrays[nm_], call_arrays[nm_][:8]])
+    call_arrays[nm_] = buf_[:call_arrays[nm_].size - 5]
+st_t, inc_t = tuple(bool(l[1]) for l in layers), tuple(bool(l[2]) for l in layers)
+if cfg.get('short_tuple') == 'is_static':
+    st_t = st_t[:-1]
+if cfg.get('short_tuple') == 'is_incompressible':
+    inc_t = inc_t[:-1]
+if cfg.get('short_tuple') == 'upper_radius':
+    upper = upper[:-1]
 try:
-    sol = radial_solver(radius, density, grav, bulk, cshear, freq, rho_bulk, lt, tuple(bool(l[1]) for l in layers), tuple(bool(l[2]) for l in layers), upper, **kw)
+    sol = radial_solver(call_arrays['radius'], call_arrays['density'], call_arrays['gravity'], call_arrays['bulk'], call_arrays['shear'], freq, rho_bulk, lt, st_t, inc_t, upper, **kw)
     out['success'] = bool(sol.success)
     out['message'] = str(sol.message)
     out['result_is_none'] = sol.result is None
